@@ -72,6 +72,25 @@ CHECKS["C17"] = dict(
     ref="6 (C17)", technique="Coq proof (induction over histories from one-step lemmas) + random-walk correspondence against the model's state",
     note="Assumes C01/C02/C12 of the scheme and that print+parse is a rebuild (C05/C11 of the scheme, text level). '*' has no inverse and is treated separately.")
 
+CHECKS["C05"] = dict(
+    text="Theorems over the code-shaped model of the vers text layer (VersionConstraint.split/from_string/__str__, VersionRange.from_string/__str__) for an abstract scheme: "
+         "printing a constraint and splitting it back returns its comparator and version text (depends on the dict order of COMPARATORS and on lstrip's character-set semantics, "
+         "both taken from the regenerated tables); a non-empty star-free range with pairwise inequivalent versions whose texts are delimiter-free and re-construct to themselves "
+         "prints to a text that parses back to the very same constraint list (hence equal range, identical second print); '*' round-trips; the printed form is the version-ordered "
+         "list with '=' implicit; and (finite, over the regenerated registry) every range class that prints a scheme is the registry's entry for that scheme and vice versa. "
+         "Correspondence: print/parse/print, to_dict and registry on every registered scheme and range class, and model vs implementation on a generic scheme registered at run time.",
+    ref="6 (C05)", technique="Coq proof (string-level lemmas over a model of the parser/printer; finite registry facts by computation) + per-scheme round-trip evaluation and model correspondence",
+    note="Assumes C11 of the scheme (printed version text re-constructs to an equal version) and C01/C02. Ranges repeating a version and to_dict are covered by the correspondence only. CPython str methods are modelled (Py/PyStr.v) and conformance-tested on every run.")
+CHECKS["C13"] = dict(
+    text="Theorems: two constraint collections that differ only in order (every version occurring once) sort to the same list and print the same canonical text, for every version "
+         "type with a total preorder - which is also the hash-seed statement, since set iteration under hash randomisation is an arbitrary permutation feeding that sort; "
+         "from_string factors through remove_spaces, so whitespace inserted anywhere is insignificant; an explicit '=' splits like none; the letter case of 'vers:' and of the "
+         "scheme is irrelevant. Stray pipes are covered by the correspondence. Checked on the implementation: shuffled rebuilds and decorated variants on every registered scheme, "
+         "pools of near-equal versions given in two orders, the model of from_string vs the implementation on a generic scheme, CPython conformance of the string primitives, and "
+         "the same workload run in fresh interpreters under several PYTHONHASHSEED values.",
+    ref="6 (C13)", technique="Coq proof (sorted-permutation uniqueness; parser factorisation lemmas) + decorated-variant evaluation, model correspondence and multi-seed subprocess runs",
+    note="Assumes C01/C02/C12 of the scheme. The hash seed is a process-level configuration: proved for the model (set = arbitrary permutation), exercised on CPython by subprocess runs.")
+
 PENDING = {}
 
 
